@@ -8,13 +8,13 @@ package main
 
 import (
 	"bytes"
-	"regexp"
 	"encoding/json"
 	"flag"
 	"fmt"
 	"os"
 	"os/exec"
 	"path/filepath"
+	"regexp"
 	"sort"
 	"strconv"
 	"strings"
